@@ -376,6 +376,8 @@ SEARCH_DECIDES = {
     "semantics::classify_node": "the candidate's own classification",
     "PartialEq::eq": "the classification equals the definition searched for / the token's text equals the name",
     "PartialEq::ne": "the same tests, negated",
+    "impls::eq": "the same equality asked through references (core::cmp::impls: `&A == &B` is `A == B`)",
+    "impls::ne": "the same, negated",
     "TextRange::contains_inclusive": "the hit lies inside the range the scope gives for this file (both ends included: a name at the very end of a function)",
     "Option::and_then": "the token's parent is a name-like node (TypeNameOrName::cast)",
     "TypeNameOrName::cast": "the token's parent is a name-like node",
